@@ -39,7 +39,7 @@ def adapt_numpylike_reduce(op):
     classical = adapter.classical_from_numpy.ops(np)
 
     op = tracer.signature.python.constant(op)
-    op = adapter.decomposednamedtensor_from_classical.reduce(op, expected_type=np.ndarray)
+    op = adapter.decomposednamedtensor_from_classical.reduce(op, expected_type=(np.ndarray, np.generic))
     op = adapter.namedtensor_from_decomposednamedtensor.op(op, classical)
     op = adapter.namedtensor_calltensorfactory.op(op, expected_type=np.ndarray)
     op = adapter.einx_from_namedtensor.reduce(op, iskwarg=iskwarg)
@@ -57,7 +57,7 @@ def adapt_numpylike_elementwise(op):
     classical = adapter.classical_from_numpy.ops(np)
 
     op = tracer.signature.python.constant(op)
-    op = adapter.decomposednamedtensor_from_classical.elementwise(op, classical, expected_type=np.ndarray)
+    op = adapter.decomposednamedtensor_from_classical.elementwise(op, classical, expected_type=(np.ndarray, np.generic))
     op = adapter.namedtensor_from_decomposednamedtensor.op(op, classical)
     op = adapter.namedtensor_calltensorfactory.op(op, expected_type=np.ndarray)
     op = adapter.einx_from_namedtensor.elementwise(op, iskwarg=iskwarg)
